@@ -57,6 +57,16 @@ def apply_op(fs, op, k):
 
 def decisions(e, names):
     out = {}
+    # the first decisions after a change are asked with a check object (a reference to the name), not a name
+    from oslo_policy import _checks
+    row = []
+    for n in names:
+        for r in PROBE_ROLES[:3] + ['v%d' % i for i in range(1, 60, 12)]:
+            try:
+                row.append(bool(e.enforce(_checks.RuleCheck('rule', n), {}, {'roles': [r]})))
+            except Exception as ex:   # noqa
+                row.append('EXC ' + type(ex).__name__)
+    out['(by check object)'] = row
     for n in names:
         row = []
         for r in PROBE_ROLES[:12] + ['v%d' % i for i in range(1, 60, 4)]:
